@@ -7,9 +7,10 @@ import FluteModel.TsiFilter
   The per-session `Receiver` is a PARAMETER (`Machine`): an arbitrary state machine with the four entry
   points `MultiReceiver` calls (`Receiver::new`, `push`, `cleanup`, `is_expired`).  `Receiver` reads
   `Instant::now()` itself; the model passes the value of a model clock (`State.clock`, advanced only by
-  `Op.tick`) to every entry point instead.  The `endpoint`/`tsi` fields that `Receiver::new` stores and that
-  every writer callback carries are modelled by `Sess.key`; what the receiver does with a packet
-  (callbacks, result) is the opaque output `Out`, logged together with the key it carries.
+  `Op.tick`) to every entry point instead.  What the receiver does during a call (writer callbacks, result) is the
+  output `Out`, logged under the key of the table entry; `Machine.keys` reads the (endpoint, tsi) argument of each
+  callback in an output, `Machine.Lawful` says the machine forwards the key it was constructed with (proved for the
+  instance built from the session-level receiver model `Flute.Recv`, see `MultiRecvRecv.lean`).
 -/
 namespace Flute.MultiRecv
 open Flute Flute.TsiFilter
@@ -37,25 +38,37 @@ def Event.key : Event → Key
   | .opened k => k
   | .closed k => k
 
-/-- the per-session state machine (`Receiver`) -/
+/-- the per-session state machine (`Receiver`).  `π` is the environment input of a call: for `push` the rest of
+    the parsed packet and the `now` argument (`Pkt.body`); for `cleanup`, and for the destruction of the receiver,
+    whatever else the real code reads at that moment (the `now` argument, wall-clock staleness of its objects).
+    `Out` is what the receiver does to the outside during a call: its writer callbacks and its result. -/
 structure Machine (σ π Out : Type) where
   /-- `Receiver::new(&key.endpoint, key.tsi, writer, config)` at instant `t` -/
   init : Nat → Key → σ
   /-- `Receiver::push(&alc, now)` at instant `t` -/
   push : Nat → σ → Pkt π → σ × Out
   /-- `Receiver::cleanup(now)` at instant `t` -/
-  cleanup : Nat → Nat → σ → σ × Out
+  cleanup : Nat → π → σ → σ × Out
   /-- `Receiver::is_expired()` at instant `t` -/
   expired : Nat → σ → Bool
+  /-- the `Box<Receiver>` is dropped (removed from the table, or the table itself is dropped): `Drop for
+      ObjectReceiver` of every object it still holds calls `writer.error(..)` -/
+  fini : Nat → π → σ → Out
+  /-- the `(endpoint, tsi)` arguments of the writer callbacks contained in an output, one per callback -/
+  keys : Out → List Key
 
-/-- a `Receiver`: the `endpoint`/`tsi` it was constructed with (carried by all its callbacks) + the rest -/
-structure Sess (σ : Type) where
-  key : Key
-  st : σ
+/-- a session machine forwards the endpoint / TSI it was constructed with: `keyOf` reads the `endpoint`, `tsi` fields -/
+def Machine.Lawful {σ π Out : Type} (M : Machine σ π Out) (keyOf : σ → Key) : Prop :=
+  (∀ t k, keyOf (M.init t k) = k) ∧
+  (∀ t s p, keyOf (M.push t s p).1 = keyOf s) ∧
+  (∀ t i s, keyOf (M.cleanup t i s).1 = keyOf s) ∧
+  (∀ t s p, ∀ k ∈ M.keys (M.push t s p).2, k = keyOf s) ∧
+  (∀ t i s, ∀ k ∈ M.keys (M.cleanup t i s).2, k = keyOf s) ∧
+  (∀ t i s, ∀ k ∈ M.keys (M.fini t i s), k = keyOf s)
 
 structure State (σ Out : Type) where
   /-- `alc_receiver: HashMap<ReceiverEndpoint, Box<Receiver>>` -/
-  table : List (Key × Sess σ)
+  table : List (Key × σ)
   /-- `tsifilter` -/
   filter : Filter
   /-- `enable_tsi_filtering` -/
@@ -70,8 +83,8 @@ structure State (σ Out : Type) where
   listenersId : Nat
   /-- ghost: the logs of listeners that were removed, as they stood at removal -/
   retired : List (Nat × List Event)
-  /-- receiver outputs in order: (key the session is stored under, key carried by the callbacks, output) -/
-  outs : List (Key × Key × Out)
+  /-- receiver outputs in order: (key of the table entry whose receiver produced it, output) -/
+  outs : List (Key × Out)
 
 /-- `MultiReceiver::new(writer, config, enable_tsi_filtering)` -/
 def State.new {σ Out : Type} (filtering : Bool) : State σ Out :=
@@ -84,7 +97,7 @@ inductive Op (π : Type)
   /-- time passes (the only thing that moves the clock) -/
   | tick (d : Nat)
   /-- `cleanup(now)` -/
-  | cleanup (now : Nat)
+  | cleanup (i : π)
   | addListen (ep : Endpoint) (tsi : Nat)
   | removeListen (ep : Endpoint) (tsi : Nat)
   | addAll (ep : Endpoint)
@@ -95,7 +108,7 @@ inductive Op (π : Type)
   /-- `remove_listener(id)` -/
   | removeListener (id : Nat)
   /-- `Drop for MultiReceiver` (afterwards the table is empty) -/
-  | drop
+  | drop (i : π)
 
 /-- what the caller of one operation sees besides the callbacks -/
 inductive Res
@@ -127,49 +140,52 @@ def push (M : Machine σ π Out) (s : State σ Out) (ep : Endpoint) : Option (Pk
     let key : Key := ⟨ep, pkt.tsi⟩
     if pkt.close then
       match AL.get s.table key with
-      | some se =>
-        let r := M.push s.clock se.st pkt
+      | some st =>
+        -- `receiver.push(&alc, now)`, then `self.alc_receiver.remove(&key)` drops the receiver, then the listeners
+        let r := M.push s.clock st pkt
         ({ s with table := AL.del s.table key,
                   events := s.events ++ [.closed key],
                   listeners := tell s.listeners [.closed key],
-                  outs := s.outs ++ [(key, se.key, r.2)] }, .done)
+                  outs := s.outs ++ [(key, r.2), (key, M.fini s.clock pkt.body r.1)] }, .done)
       | none => (s, .noSession)
     else
       -- get_receiver_or_create
       match AL.get s.table key with
-      | some se =>
-        let r := M.push s.clock se.st pkt
-        ({ s with table := AL.set s.table key { se with st := r.1 },
-                  outs := s.outs ++ [(key, se.key, r.2)] }, .done)
+      | some st =>
+        let r := M.push s.clock st pkt
+        ({ s with table := AL.set s.table key r.1,
+                  outs := s.outs ++ [(key, r.2)] }, .done)
       | none =>
-        let se : Sess σ := ⟨key, M.init s.clock key⟩
-        let r := M.push s.clock se.st pkt
-        ({ s with table := AL.set s.table key { se with st := r.1 },
+        let r := M.push s.clock (M.init s.clock key) pkt
+        ({ s with table := AL.set s.table key r.1,
                   events := s.events ++ [.opened key],
                   listeners := tell s.listeners [.opened key],
-                  outs := s.outs ++ [(key, se.key, r.2)] }, .done)
+                  outs := s.outs ++ [(key, r.2)] }, .done)
 
 /-- `MultiReceiver::cleanup` (after `fix: evaluate session expiry once in MultiReceiver::cleanup`):
-    one `retain` pass that evaluates `is_expired()` once per session and collects the removed keys,
-    `Receiver::cleanup(now)` on the sessions kept, then `on_session_closed` for the removed keys. -/
-def cleanup (M : Machine σ π Out) (s : State σ Out) (now : Nat) : State σ Out :=
-  let gone := s.table.filter (fun e => M.expired s.clock e.2.st)
-  let kept := s.table.filter (fun e => !M.expired s.clock e.2.st)
+    one `retain` pass that evaluates `is_expired()` once per session, collects the removed keys and drops the
+    removed receivers; `Receiver::cleanup(now)` on the sessions kept; then `on_session_closed` for the removed keys. -/
+def cleanup (M : Machine σ π Out) (s : State σ Out) (i : π) : State σ Out :=
+  let gone := s.table.filter (fun e => M.expired s.clock e.2)
+  let kept := s.table.filter (fun e => !M.expired s.clock e.2)
   { s with
-    table := kept.map (fun e => (e.1, { e.2 with st := (M.cleanup s.clock now e.2.st).1 })),
-    outs := s.outs ++ kept.map (fun e => (e.1, e.2.key, (M.cleanup s.clock now e.2.st).2)),
+    table := kept.map (fun e => (e.1, (M.cleanup s.clock i e.2).1)),
+    outs := s.outs ++ gone.map (fun e => (e.1, M.fini s.clock i e.2))
+                   ++ kept.map (fun e => (e.1, (M.cleanup s.clock i e.2).2)),
     events := s.events ++ gone.map (fun e => Event.closed e.1),
     listeners := tell s.listeners (gone.map (fun e => Event.closed e.1)) }
 
-/-- `Drop for MultiReceiver`: `on_session_closed` for every key of the table -/
-def drop (s : State σ Out) : State σ Out :=
+/-- `Drop for MultiReceiver`: `on_session_closed` for every key of the table; then the fields are dropped, i.e.
+    every receiver still in the table -/
+def drop (M : Machine σ π Out) (s : State σ Out) (i : π) : State σ Out :=
   { s with table := [], events := s.events ++ s.table.map (fun e => Event.closed e.1),
-           listeners := tell s.listeners (s.table.map (fun e => Event.closed e.1)) }
+           listeners := tell s.listeners (s.table.map (fun e => Event.closed e.1)),
+           outs := s.outs ++ s.table.map (fun e => (e.1, M.fini s.clock i e.2)) }
 
 def step (M : Machine σ π Out) (s : State σ Out) : Op π → State σ Out × Res
   | .push ep p => push M s ep p
   | .tick d => ({ s with clock := s.clock + d }, .unit)
-  | .cleanup now => (cleanup M s now, .unit)
+  | .cleanup i => (cleanup M s i, .unit)
   | .addListen ep tsi =>
     match TsiFilter.add s.filter ep tsi with
     | .ok f => ({ s with filter := f }, .unit)
@@ -188,12 +204,16 @@ def step (M : Machine σ π Out) (s : State σ Out) : Op π → State σ Out × 
               retired := match AL.get s.listeners id with
                 | some l => s.retired ++ [(id, l)]
                 | none => s.retired }, .unit)
-  | .drop => (drop s, .unit)
+  | .drop i => (drop M s i, .unit)
 
 /-- a whole history -/
 def run (M : Machine σ π Out) (s : State σ Out) : List (Op π) → State σ Out
   | [] => s
   | op :: ops => run M (step M s op).1 ops
+
+/-- what the driver prints after an operation: the entries the operation appended to the two logs -/
+def newEvents (before after : State σ Out) : List Event := after.events.drop before.events.length
+def newOuts (before after : State σ Out) : List (Key × Out) := after.outs.drop before.outs.length
 
 /-! ### The code before the fix (kept for the record of the defect, see `Props/C18.lean`)
 
@@ -202,32 +222,46 @@ def run (M : Machine σ π Out) (s : State σ Out) : List (Op π) → State σ O
   happens `dt ≥ 0` later. -/
 namespace PreFix
 
-def cleanup (M : Machine σ π Out) (s : State σ Out) (now dt : Nat) : State σ Out :=
-  let notified := s.table.filter (fun e => M.expired s.clock e.2.st)
-  let kept := s.table.filter (fun e => !M.expired (s.clock + dt) e.2.st)
+def cleanup (M : Machine σ π Out) (s : State σ Out) (i : π) (dt : Nat) : State σ Out :=
+  let notified := s.table.filter (fun e => M.expired s.clock e.2)
+  let gone := s.table.filter (fun e => M.expired (s.clock + dt) e.2)
+  let kept := s.table.filter (fun e => !M.expired (s.clock + dt) e.2)
   { s with
-    table := kept.map (fun e => (e.1, { e.2 with st := (M.cleanup (s.clock + dt) now e.2.st).1 })),
-    outs := s.outs ++ kept.map (fun e => (e.1, e.2.key, (M.cleanup (s.clock + dt) now e.2.st).2)),
+    table := kept.map (fun e => (e.1, (M.cleanup (s.clock + dt) i e.2).1)),
+    outs := s.outs ++ gone.map (fun e => (e.1, M.fini (s.clock + dt) i e.2))
+                   ++ kept.map (fun e => (e.1, (M.cleanup (s.clock + dt) i e.2).2)),
     events := s.events ++ notified.map (fun e => Event.closed e.1),
     listeners := tell s.listeners (notified.map (fun e => Event.closed e.1)),
     clock := s.clock + dt }
 
 end PreFix
 
-/-! ### The concrete session machine used by the model driver: last-activity instant + packet count,
-    `is_expired = elapsed > session_timeout` -/
+/-! ### The concrete session machine used by the model driver.
+
+  The real `Receiver` is opaque to the driver: HOW MANY writer callbacks a call makes is reported by the
+  implementation side as an annotation of the operation line (`#<key>=<n>`) and handed to this machine as the
+  environment input; WHICH (endpoint, tsi) they carry is the machine's: the key it was constructed with.
+  Expiry: last-activity instant, `is_expired = elapsed > session_timeout`. -/
 
 structure Act where
+  /-- `endpoint`, `tsi` fields -/
+  key : Key
+  /-- `last_activity` -/
   last : Nat
   n : Nat
 deriving Repr, DecidableEq
 
-def actMachine (timeout : Option Nat) : Machine Act Unit Unit where
-  init t _ := ⟨t, 0⟩
-  push t s _ := (⟨t, s.n + 1⟩, ())
-  cleanup _ _ s := (s, ())
+/-- number of callbacks the annotation reports for `k` -/
+def annot (a : List (Key × Nat)) (k : Key) : Nat := (AL.get a k).getD 0
+
+def actMachine (timeout : Option Nat) : Machine Act (List (Key × Nat)) (List Key) where
+  init t k := ⟨k, t, 0⟩
+  push t s p := (⟨s.key, t, s.n + 1⟩, List.replicate (annot p.body s.key) s.key)
+  cleanup _ a s := (s, List.replicate (annot a s.key) s.key)
   expired t s := match timeout with
     | none => false
     | some d => decide (t - s.last > d)
+  fini _ a s := List.replicate (annot a s.key) s.key
+  keys o := o
 
 end Flute.MultiRecv
